@@ -56,3 +56,48 @@ void __wrap_ignore_handler_s(const char *msg, void *ptr, errno_t error) {
     if (g_default_handler_hook) g_default_handler_hook(msg, ptr, error);
     __real_ignore_handler_s(msg, ptr, error);
 }
+
+/* ---- process-wide state and non-reentrant libc entry points (C12) ----
+ * A library call that switches the umask, the working directory, the environment, the locale or the libc random state, or
+ * that uses a libc function with a static result buffer, depends on and changes state shared by every thread: two such calls
+ * running at once do not behave as each would alone, however carefully each call restores what it changed. None of these
+ * symbols is referenced by the library as it stands; the interposers note a call made while a generated library call runs. */
+#include <sys/stat.h>
+#include <stdlib.h>
+#include <string.h>
+#include <time.h>
+#include <locale.h>
+#include <unistd.h>
+#include <stdio.h>
+#include "../engine/arena.h"
+const char *volatile g_globstate_sym;
+volatile int g_globstate_calls;
+#define NOTE(name) do { if (g_ar_armed) { g_globstate_calls++; if (!g_globstate_sym) g_globstate_sym = name; } } while (0)
+mode_t __real_umask(mode_t);
+mode_t __wrap_umask(mode_t m) { NOTE("umask"); return __real_umask(m); }
+int __real_chdir(const char *);
+int __wrap_chdir(const char *p) { NOTE("chdir"); return __real_chdir(p); }
+int __real_setenv(const char *, const char *, int);
+int __wrap_setenv(const char *a, const char *b, int o) { NOTE("setenv"); return __real_setenv(a, b, o); }
+int __real_unsetenv(const char *);
+int __wrap_unsetenv(const char *a) { NOTE("unsetenv"); return __real_unsetenv(a); }
+int __real_putenv(char *);
+int __wrap_putenv(char *a) { NOTE("putenv"); return __real_putenv(a); }
+void __real_srand(unsigned);
+void __wrap_srand(unsigned s) { NOTE("srand"); __real_srand(s); }
+int __real_rand(void);
+int __wrap_rand(void) { NOTE("rand"); return __real_rand(); }
+char *__real_strtok(char *, const char *);
+char *__wrap_strtok(char *a, const char *b) { NOTE("strtok"); return __real_strtok(a, b); }
+char *__real_asctime(const struct tm *);
+char *__wrap_asctime(const struct tm *t) { NOTE("asctime"); return __real_asctime(t); }
+char *__real_ctime(const time_t *);
+char *__wrap_ctime(const time_t *t) { NOTE("ctime"); return __real_ctime(t); }
+struct tm *__real_gmtime(const time_t *);
+struct tm *__wrap_gmtime(const time_t *t) { NOTE("gmtime"); return __real_gmtime(t); }
+struct tm *__real_localtime(const time_t *);
+struct tm *__wrap_localtime(const time_t *t) { NOTE("localtime"); return __real_localtime(t); }
+char *__real_tmpnam(char *);
+char *__wrap_tmpnam(char *b) { if (!b) NOTE("tmpnam(NULL)"); return __real_tmpnam(b); }
+char *__real_setlocale(int, const char *);
+char *__wrap_setlocale(int c, const char *l) { if (l) NOTE("setlocale"); return __real_setlocale(c, l); }
